@@ -1,0 +1,244 @@
+//! Verification hook H3 (compiled only with `--cfg egglog_verif`; with the cfg off this file
+//! contributes nothing and no behaviour changes).
+//!
+//! Lets an external harness re-run the in-tree proof checker ([`ProofStore::check_proof`]) on a
+//! proof returned by `(prove ...)`
+//!  * against the e-graph's own proof-checking program,
+//!  * against that program with one rule / global action / function declaration removed,
+//!  * optionally after one structural mutation of one proof node,
+//! and read the proof-checking program as text. Everything works on clones: neither the e-graph
+//! nor the caller's proof store is modified.
+use crate::{
+    EGraph, TermId,
+    ast::{GenericNCommand, ResolvedNCommand},
+    proofs::proof_format::{Justification, ProofId, ProofStore, Proposition},
+};
+
+/// One alteration of the checking program.
+#[derive(Clone, Debug, PartialEq, Eq)]
+pub enum VerifProgramEdit {
+    /// check against the program as it is
+    Unchanged,
+    /// drop the rule with this name
+    RemoveRule(String),
+    /// drop the i-th top-level action (counting `CoreAction` commands only, from 0)
+    RemoveGlobalAction(usize),
+    /// drop the declaration (and with it the merge function) of this function
+    RemoveFunction(String),
+}
+
+/// One structural mutation of one proof node.
+#[derive(Clone, Debug, PartialEq, Eq)]
+pub enum VerifProofMutation {
+    Unchanged,
+    /// swap the two operands of a `Trans` node
+    SwapTrans(ProofId),
+    /// replace the child index of a `Congr` node
+    SetCongrIndex(ProofId, usize),
+    /// replace the left / right term of the proposition a node claims
+    SetLhs(ProofId, TermId),
+    SetRhs(ProofId, TermId),
+    /// rebind one variable of the substitution of a `Rule` node
+    SetSubst(ProofId, String, TermId),
+    /// drop the i-th premise proof of a `Rule` node
+    DropPremise(ProofId, usize),
+    /// replace the sub-proof of a `Sym` node / the i-th sub-proof of any other node
+    SetChild(ProofId, usize, ProofId),
+}
+
+impl ProofStore {
+    /// Number of proofs in the store (ids `0..n` are valid arguments of [`ProofStore::get`]).
+    pub fn verif_len(&self) -> usize {
+        self.id_to_proof.n_ids()
+    }
+
+    fn verif_mutate(&mut self, m: &VerifProofMutation) -> Result<(), String> {
+        let n = self.verif_len();
+        let ntm = self.term_dag.size();
+        let chk_p = |p: &ProofId| -> Result<(), String> {
+            if egglog_numeric_id::NumericId::index(*p) < n {
+                Ok(())
+            } else {
+                Err(format!("verif hook: proof id {p} out of range"))
+            }
+        };
+        let chk_t = |t: &TermId| -> Result<(), String> {
+            if *t < ntm {
+                Ok(())
+            } else {
+                Err(format!("verif hook: term id {t} out of range"))
+            }
+        };
+        match m {
+            VerifProofMutation::Unchanged => Ok(()),
+            VerifProofMutation::SwapTrans(p) => {
+                chk_p(p)?;
+                match &mut self.id_to_proof[*p].justification {
+                    Justification::Trans(a, b) => {
+                        std::mem::swap(a, b);
+                        Ok(())
+                    }
+                    _ => Err("verif hook: not a Trans node".into()),
+                }
+            }
+            VerifProofMutation::SetCongrIndex(p, i) => {
+                chk_p(p)?;
+                match &mut self.id_to_proof[*p].justification {
+                    Justification::Congr { child_index, .. } => {
+                        *child_index = *i;
+                        Ok(())
+                    }
+                    _ => Err("verif hook: not a Congr node".into()),
+                }
+            }
+            VerifProofMutation::SetLhs(p, t) => {
+                chk_p(p)?;
+                chk_t(t)?;
+                let rhs = self.id_to_proof[*p].proposition.rhs;
+                self.id_to_proof[*p].proposition = Proposition::new(*t, rhs);
+                Ok(())
+            }
+            VerifProofMutation::SetRhs(p, t) => {
+                chk_p(p)?;
+                chk_t(t)?;
+                let lhs = self.id_to_proof[*p].proposition.lhs;
+                self.id_to_proof[*p].proposition = Proposition::new(lhs, *t);
+                Ok(())
+            }
+            VerifProofMutation::SetSubst(p, v, t) => {
+                chk_p(p)?;
+                chk_t(t)?;
+                match &mut self.id_to_proof[*p].justification {
+                    Justification::Rule { substitution, .. } => {
+                        substitution.insert(v.clone(), *t);
+                        Ok(())
+                    }
+                    _ => Err("verif hook: not a Rule node".into()),
+                }
+            }
+            VerifProofMutation::DropPremise(p, i) => {
+                chk_p(p)?;
+                match &mut self.id_to_proof[*p].justification {
+                    Justification::Rule { premise_proofs, .. } if *i < premise_proofs.len() => {
+                        premise_proofs.remove(*i);
+                        Ok(())
+                    }
+                    _ => Err("verif hook: not a Rule node with that many premises".into()),
+                }
+            }
+            VerifProofMutation::SetChild(p, i, c) => {
+                chk_p(p)?;
+                chk_p(c)?;
+                let slot: Option<&mut ProofId> = match &mut self.id_to_proof[*p].justification {
+                    Justification::Fiat | Justification::Eval => None,
+                    Justification::Rule { premise_proofs, .. } => premise_proofs.get_mut(*i),
+                    Justification::MergeFn {
+                        old_proof,
+                        new_proof,
+                        ..
+                    } => match i {
+                        0 => Some(old_proof),
+                        1 => Some(new_proof),
+                        _ => None,
+                    },
+                    Justification::Trans(a, b) => match i {
+                        0 => Some(a),
+                        1 => Some(b),
+                        _ => None,
+                    },
+                    Justification::Sym(a) => (*i == 0).then_some(a),
+                    Justification::Congr {
+                        proof, child_proof, ..
+                    } => match i {
+                        0 => Some(proof),
+                        1 => Some(child_proof),
+                        _ => None,
+                    },
+                    Justification::ContainerNormalize { proof } => (*i == 0).then_some(proof),
+                };
+                match slot {
+                    Some(s) => {
+                        *s = *c;
+                        Ok(())
+                    }
+                    None => Err("verif hook: node has no such sub-proof".into()),
+                }
+            }
+        }
+    }
+}
+
+fn verif_edit_program(
+    prog: &[ResolvedNCommand],
+    edit: &VerifProgramEdit,
+) -> Result<Vec<ResolvedNCommand>, String> {
+    let mut out = Vec::with_capacity(prog.len());
+    let mut action_ix = 0usize;
+    let mut hit = matches!(edit, VerifProgramEdit::Unchanged);
+    for cmd in prog {
+        let drop = match (cmd, edit) {
+            (GenericNCommand::NormRule { rule }, VerifProgramEdit::RemoveRule(n)) => {
+                &rule.name == n
+            }
+            (GenericNCommand::Function(f), VerifProgramEdit::RemoveFunction(n)) => &f.name == n,
+            (GenericNCommand::CoreAction(_), VerifProgramEdit::RemoveGlobalAction(i)) => {
+                action_ix += 1;
+                action_ix - 1 == *i
+            }
+            _ => false,
+        };
+        if drop {
+            hit = true;
+        } else {
+            out.push(cmd.clone());
+        }
+    }
+    if hit {
+        Ok(out)
+    } else {
+        Err(format!("verif hook: nothing matches {edit:?}"))
+    }
+}
+
+impl EGraph {
+    /// The program the in-tree checker validates proofs against, one entry per command:
+    /// `(kind, text)` with kind `rule:<name>`, `action`, `function:<name>` or `other`, and the
+    /// command printed as egglog text.
+    pub fn verif_proof_check_program(&self) -> Vec<(String, String)> {
+        self.proof_check_program
+            .iter()
+            .map(|cmd| {
+                let kind = match cmd {
+                    GenericNCommand::NormRule { rule } => format!("rule:{}", rule.name),
+                    GenericNCommand::CoreAction(_) => "action".to_string(),
+                    GenericNCommand::Function(f) => format!("function:{}", f.name),
+                    _ => "other".to_string(),
+                };
+                (kind, cmd.to_command().to_string())
+            })
+            .collect()
+    }
+
+    /// Re-run the in-tree proof checker on `root` of (a clone of) `store`, against (a clone of)
+    /// this e-graph's proof-checking program altered by `edit`, after applying `mutation`.
+    /// `Ok(())` iff the checker accepts. `Err` carries the checker's message (or the reason the
+    /// edit / mutation could not be applied, prefixed with `verif hook:`).
+    pub fn verif_recheck_proof(
+        &self,
+        store: &ProofStore,
+        root: ProofId,
+        edit: &VerifProgramEdit,
+        mutation: &VerifProofMutation,
+    ) -> Result<(), String> {
+        let prog = verif_edit_program(&self.proof_check_program, edit)?;
+        let mut store = store.clone();
+        store.verif_mutate(mutation)?;
+        if egglog_numeric_id::NumericId::index(root) >= store.verif_len() {
+            return Err(format!("verif hook: proof id {root} out of range"));
+        }
+        store
+            .check_proof(root, &prog)
+            .map(|_| ())
+            .map_err(|e| e.to_string())
+    }
+}
